@@ -14,7 +14,9 @@ pub fn enqueue_to_return_stack<T: InterpreterTrait>(interpreter: &mut T, index: 
 pub fn dequeue_from_return_stack<T: InterpreterTrait>(interpreter: &mut T) {
     let v = interpreter
         .by_ref_stack()
-        .pop_front()
+        // last in, first out: storing a value back can make a call of its own
+        // (an array index that calls a function), which uses the same stack
+        .pop_back()
         .expect("by_ref_stack underflow");
     interpreter.registers_mut().set_a(v);
 }
